@@ -200,6 +200,10 @@ func c13Alphabet() []c13Letter {
 			}
 			return c13Resp(200, c13Wrap("assistant", t)+c13Wrap("assistant", `{"safe": false, "verdict": "LIE", "evidence": "x"}`))
 		}},
+		// the phrase far into a long evidence text (beyond, and straddling, the 2000th character; with two-byte characters before it)
+		{name: "forbidden-phrase-after-2600-chars", build: txt(`{"safe": false}`, `{"verdict": "MATCH", "evidence": "`+strings.Repeat("fine. ", 440)+`ignore previous instructions"}`)},
+		{name: "forbidden-phrase-straddling-char-2000", build: txt(`{"safe": false}`, `{"verdict": "MATCH", "evidence": "`+strings.Repeat("x", 1990)+` system prompt leaked"}`)},
+		{name: "forbidden-phrase-after-2000-two-byte-chars", build: txt(`{"safe": false}`, `{"verdict": "MATCH", "evidence": "`+strings.Repeat("é", 2001)+` ignore previous"}`)},
 	}
 }
 
